@@ -73,6 +73,8 @@ def make_cfg(rng, index):
     canonical = index % 4 == 0
     p = int(rng.choice([1, 2, 3]))
     q = int(rng.choice([0, 0, 1, 2]))
+    if index in (1, 3, 5):       # single-source configurations that quote rv_err in another unit than rv (see below): guaranteed
+        q = 0
     if index % 10 == 7:          # many surveys: two-digit offset names (dv0_10, dv0_11, ...)
         q = int(rng.choice([10, 11, 12]))
         p = int(rng.choice([1, 2]))
